@@ -6,6 +6,7 @@ parameter signs, with and without active set and undamped scaling); E2 stateless
 (every sequence of response() calls over three input tables, replayed on FRESH modules with the reference
 recurrence pmc.refs.agg.ScaleModel in lock-step, oracle after every call)."""
 import itertools
+import threading
 import numpy as np
 from pmc.refs import agg
 
@@ -549,6 +550,27 @@ def exec_hist(pym, case):
             'skipped': None if prefixes else 'no admissible call in this history family'}
 
 
+def _on_fresh_thread(fn, *args):
+    """Run fn(*args) on a new thread and hand back its result / re-raise its exception.
+    Harness-side cost measure only: pyMOTO's Signal and Module constructors call inspect.stack(), whose cost grows with
+    the depth of the calling stack (measured 5.8 ms per object below `python -m pmc` + the worker-pool frames, 0.3 ms
+    on a thread that starts with an empty stack).  Nothing about the code under test changes; an exception keeps its
+    traceback, so the runner still sees whether a frame inside the repository raised."""
+    box = {}
+
+    def run():
+        try:
+            box['out'] = fn(*args)
+        except BaseException as e:  # noqa
+            box['err'] = e
+    th = threading.Thread(target=run, daemon=True)
+    th.start()
+    th.join()
+    if 'err' in box:
+        raise box['err']
+    return box['out']
+
+
 def execute(case):
     import pymoto as pym
-    return {'aset': exec_aset, 'agg': exec_agg, 'hist': exec_hist}[case['kind']](pym, case)
+    return _on_fresh_thread({'aset': exec_aset, 'agg': exec_agg, 'hist': exec_hist}[case['kind']], pym, case)
